@@ -103,6 +103,9 @@ fn absorb_sites(aux: &mut Aux) {
 
 impl io::Read for BudgetReader {
     fn read(&mut self, buf: &mut [u8]) -> io::Result<usize> {
+        // every seam call is a sign of life for the hang watchdog (which exists for
+        // runs that spin WITHOUT reaching a seam)
+        crate::parent::tick();
         let call;
         {
             let w = lock(&self.world);
